@@ -1,0 +1,52 @@
+//go:build verif
+
+// Contracts for property C16 (local imports stay inside the module), read by /verif/engine (govc). Comments
+// only. Vocabulary and the ASSUMED lemmas about path.Clean, filepath.Clean, filepath.Join, strings.Trim,
+// strings.ReplaceAll and string concatenation: /verif/specs/96_path.spec/.smt2. Notes: /verif/notes/w-c18.md.
+//
+// Shape of the proof: the READERS (fileValue, bundleLocalFile, addModuleSentinel) require their path argument to
+// be under the ghost directory `importroot` (the module root for //{/p}, the importing script's directory for
+// //{./p}); importLocalFile requires of ITS caller what the sanitiser in compilePackage is there to establish;
+// compilePackage has to establish it for every import string. The obligations are the pre@… at those calls.
+package syntax
+
+// ---- readers (bodies not verified: they are the observation points; what they open is `filename`, plus ".arrai"
+//      when it has no extension) -------------------------------------------------------------------------------
+//@ func fileValue(ctx, decoder, filename)
+//@   trusted
+//@   assigns fresh-only
+//@   requires[C16] confined: underdir(filename, importroot)
+//@ func bundleLocalFile(ctx, filePath)
+//@   trusted
+//@   assigns fresh-only
+//@   requires[C16] confined: underdir(filePath, importroot)
+//@ func addModuleSentinel(ctx, rootPath)
+//@   trusted
+//@   assigns fresh-only
+//@   requires[C16] confined: underdir(rootPath, importroot)
+
+// findRootFromModule DEFINES the module root of a from-root import: the ghost records what it returns.
+// (body not verified: it walks up the directory tree with Stat calls — metadata only — and fills the root cache)
+//@ func findRootFromModule(ctx, modulePath)
+//@   trusted
+//@   assigns fresh-only
+//@   modifies importroot
+//@   returns (root, err)
+//@   ensures err == nil ==> importroot == root
+//@ func handleImportErrors(err, wrapped)
+//@   trusted
+//@   assigns fresh-only
+
+// ---- importLocalFile: what it needs from compilePackage, and that the readers then get confined paths ----------
+//@ func importLocalFile(ctx, scanner, decoder, fromRoot, importPath, sourceDir)
+//@   assigns fresh-only
+//@   modifies importroot
+//@   ghostentry importroot := sourceDir
+//@   requires[C16] fromroot: fromRoot ==> ddfree(importPath) && !rooted(importPath) && cleaned(importPath)
+//@   requires[C16] dot: !fromRoot ==> underdir(importPath, sourceDir)
+
+// ---- compilePackage: the sanitiser. No `tags`: the implicit safety obligations of the AST navigation (type
+//      assertions on wbnf nodes whose shape the grammar guarantees) are not C16.
+//@ func (ParseContext).compilePackage(pc; ctx, b, c)
+//@   modifies importroot
+//@   ensures[C16] c16unit: true
